@@ -56,8 +56,21 @@ def recipe_masked_vs_deleted(ctx):
             d = rng.choice(cand)
             lab = rng.choice(list(xs[0][d].values))
             masked, deleted = [], []
-            for x in xs:
-                if d in x.dims:
+            having = [i for i, x in enumerate(xs) if d in x.dims]
+            # blank every input, or only some of them (the case is invalid as soon as one input is missing). CDF scores:
+            # a deleted observation would also leave the common threshold grid, so all inputs are blanked there;
+            # single-input functions must lose their own input
+            if "threshold" in rc.nondata or rng.random() < 0.4:
+                blank = set(having)
+            else:
+                blank = set(rng.sample(having, rng.randint(1, len(having))))
+                if rc.name in ("binary_discretise_proportion",):
+                    blank.add(0)
+            for i, x in enumerate(xs):
+                if d in x.dims and i not in blank:      # the case is invalid although this input is present
+                    masked.append(x)
+                    deleted.append(recipes.mat(x.sel({d: [v for v in x[d].values if v != lab]})))
+                elif d in x.dims:
                     masked.append(recipes.mat(x.where(x[d] != lab)))
                     deleted.append(recipes.mat(x.sel({d: [v for v in x[d].values if v != lab]})))
                 else:
@@ -75,9 +88,49 @@ def recipe_masked_vs_deleted(ctx):
                 ctx.violation(f"{rc.name}: blanking {d}={lab} with NaN differs from deleting that case from all inputs: {why}", desc, "equal", why)
 
 
+def cdf_partial_nan(ctx):
+    """a forecast CDF with a NaN ordinate (but enough valid ones to be filled) is missing as a whole: its own case is NaN in
+    every output, every other case is unchanged"""
+    import recipes
+    import scores
+    P = scores.probability
+    rng = ctx.rng
+    fns = {"crps_cdf_exact": lambda f, o: P.crps_cdf(f, o, include_components=True, preserve_dims=["a", "b"]),
+           "crps_cdf_trapz": lambda f, o: P.crps_cdf(f, o, integration_method="trapz", include_components=True, preserve_dims=["a", "b"]),
+           "crps_cdf_brier_decomposition": lambda f, o: P.crps_cdf_brier_decomposition(f, o, preserve_dims=["a", "b"])}
+    for it in range(ctx.n(6, 60)):
+        f, o = [recipes.mat(x) for x in recipes.g_cdf(rng)]
+        f = f.sortby("a").sortby("b")
+        o = o.sortby("a").sortby("b")
+        ia, ib, it_ = rng.randrange(f.sizes["a"]), rng.randrange(f.sizes["b"]), rng.randrange(f.sizes["threshold"])
+        vals = f.values.copy()
+        vals[ia, ib, it_] = np.nan
+        fn_ = f.copy(data=vals)
+        for name, call in fns.items():
+            a = core.call_impl(call, f, o)
+            b = core.call_impl(call, fn_, o)
+            ctx.case(("cdfnan", name, gens.da_repr(f), gens.da_repr(o), ia, ib, it_))
+            ctx.count("cdf_partial_nan:" + name)
+            if a[0] != "ok" or b[0] != "ok":
+                ctx.violation(f"{name}: raises on a CDF with one NaN ordinate ({b[1]})", {"fcst": gens.da_repr(fn_), "obs": gens.da_repr(o)}, "values", str(b[1])[:100])
+                continue
+            for v in a[1].data_vars:
+                x, y = a[1][v].transpose("a", "b", ...).values, b[1][v].transpose("a", "b", ...).values
+                own = y[ia, ib]
+                if not np.all(np.isnan(own)):
+                    ctx.violation(f"{name}: a forecast CDF with a NaN ordinate is scored ({v} = {np.ravel(own)[:4]}) instead of being missing as a whole",
+                                  {"fcst": gens.da_repr(fn_), "obs": gens.da_repr(o), "case": [ia, ib]}, "NaN", np.ravel(own).tolist())
+                mask = np.ones(x.shape, dtype=bool)
+                mask[ia, ib] = False
+                if not np.allclose(x[mask], y[mask], rtol=1e-9, atol=1e-12, equal_nan=True):
+                    ctx.violation(f"{name}: a NaN ordinate in one forecast CDF changes the score of other cases ({v})",
+                                  {"fcst": gens.da_repr(fn_), "obs": gens.da_repr(o), "case": [ia, ib]}, "unchanged", "changed")
+
+
 def run(ctx):
     registry_nan(ctx)
     recipe_masked_vs_deleted(ctx)
+    cdf_partial_nan(ctx)
 
 
 def registry_nan(ctx):
@@ -145,3 +198,4 @@ def registry_nan(ctx):
 def run_without_model(ctx):
     """used when the extracted model does not build against the current source: relations between public calls only"""
     recipe_masked_vs_deleted(ctx)
+    cdf_partial_nan(ctx)
